@@ -408,6 +408,11 @@ Fixpoint lower_elem (syn : syntax) (maxTag : Z) (depth : nat) (a : macc) (e : me
     let '(ps, es) := lower_ranges (fun r => msg_range r maxTag) rs in
     add_errs (mkMAcc (a_fields a) (a_nested a) (a_enums a) (a_exts a) (a_oneofs a) (a_extr a ++ ps)
                      (a_rsvr a) (a_rsvn a) (a_seen a) (a_errs a)) es
+  | MExtensionsOpt rs _ =>
+    (* the options of the ranges are not part of the projection; Model/Validate.v reads them from the source *)
+    let '(ps, es) := lower_ranges (fun r => msg_range r maxTag) rs in
+    add_errs (mkMAcc (a_fields a) (a_nested a) (a_enums a) (a_exts a) (a_oneofs a) (a_extr a ++ ps)
+                     (a_rsvr a) (a_rsvn a) (a_seen a) (a_errs a)) es
   | MReserved rs =>
     let '(ps, es) := lower_ranges (fun r => msg_range r maxTag) rs in
     add_errs (mkMAcc (a_fields a) (a_nested a) (a_enums a) (a_exts a) (a_oneofs a) (a_extr a)
